@@ -313,6 +313,8 @@ pub fn property() -> Property {
       enum_sub("subdomain_lattice", lattice_count, lattice_item, lattice_oracle(W10)),
       enum_sub("ordered_pairs", |_| 256, |_, i| PairItem { a: i as u8, b: 0 }, pair_oracle(W10)),
       prop_sub("histories", 300, 8000, history_strat, history_oracle(W10)),
+      crate::fuzzentry::fuzz_sub("fuzzbytes_server", "server", "C10", 150, 3000),
+      crate::fuzzentry::artefact_sub("artefact_server", "server", "C10"),
     ],
   }
 }
